@@ -107,7 +107,9 @@ func c04Check(c *Ctx, doc *XElem, path string, choices []int) (nontrivial bool) 
 		switch path {
 		case "Xml", "XmlIndent", "Xml-twice":
 			var ms mxj.MapSeq
-			ms, err = mxj.NewMapXmlSeq([]byte(xmlText))
+			inBuf := []byte(xmlText)
+			ms, err = mxj.NewMapXmlSeq(inBuf)
+			scribble(inBuf)
 			if err != nil {
 				return
 			}
@@ -124,7 +126,9 @@ func c04Check(c *Ctx, doc *XElem, path string, choices []int) (nontrivial bool) 
 				out, err = ms.Xml()
 			}
 		case "BeautifyXml":
-			out, err = mxj.BeautifyXml([]byte(xmlText), " ", "  ")
+			inBuf := []byte(xmlText)
+			out, err = mxj.BeautifyXml(inBuf, " ", "  ")
+			scribble(inBuf)
 		case "Beautify-Formatted-Xml":
 			var b []byte
 			b, err = mxj.BeautifyXml([]byte(xmlText), "", "  ")
@@ -133,6 +137,7 @@ func c04Check(c *Ctx, doc *XElem, path string, choices []int) (nontrivial bool) 
 			}
 			var ms mxj.MapSeq
 			ms, err = mxj.NewMapFormattedXmlSeq(b)
+			scribble(b)
 			if err != nil {
 				return
 			}
